@@ -457,7 +457,12 @@ impl Lockfile {
 
         // breadth first search because root has top priority of name
         let mut dependencies_metadata = Vec::new();
-        for (name, dep) in &metadata.dependencies {
+        // `dependencies` is a HashMap: walk it by name, otherwise the order in
+        // which same-named projects meet `name_table` (and so which of them
+        // gets the suffix) changes from run to run.
+        let mut sorted_dependencies: Vec<_> = metadata.dependencies.iter().collect();
+        sorted_dependencies.sort_by(|x, y| x.0.cmp(y.0));
+        for (name, dep) in sorted_dependencies {
             let dependency = self.resolve_dependency(metadata, name, dep, root, root_metadata)?;
             let metadata = self.get_metadata(&dependency.source)?;
             let mut name = dependency.name.clone();
@@ -504,7 +509,9 @@ impl Lockfile {
             }
 
             let mut dependencies = Vec::new();
-            for (name, dep) in &metadata.dependencies {
+            let mut sorted_dependencies: Vec<_> = metadata.dependencies.iter().collect();
+            sorted_dependencies.sort_by(|x, y| x.0.cmp(y.0));
+            for (name, dep) in sorted_dependencies {
                 let dependency =
                     self.resolve_dependency(&metadata, name, dep, root, root_metadata)?;
                 // project local name is not required to check name_table
